@@ -2,3 +2,5 @@ import Props.C14
 import Props.C15
 import Props.C12
 import Props.C20
+import Props.C11
+import Props.C07
